@@ -246,7 +246,7 @@ pub fn run(ctx: &mut Ctx) {
         }
     }
     // (2) random terms x random strings / lists
-    let n = ctx.share(1_500_000, 30_000_000);
+    let n = ctx.share(4_000_000, 40_000_000);
     for i in 0..n {
         if ctx.out_of_time() {
             ctx.report.inconclusive.push(format!("random workload cut at {} of {}", i, n));
